@@ -182,6 +182,31 @@ def ob_slice(ctx):
     return True
 
 
+def ob_slice_step(ctx):
+    """slices with a step are linear too (and equal the Python slice of the letters)"""
+    st = ctx.stack
+    P = ctx.P
+    n = P["n"]
+    data = "ACGTTGCAAGCTAGGC"[:n]
+    steps = [-1, 2, -2, 3, 1, -3]
+    step = steps[ctx.mk.pick("step", len(steps))]
+    a = [None, 0, 1, n - 1, -2, n + 3][ctx.mk.pick("a", 6)]
+    b = [None, 0, 2, n, -1, -n - 2][ctx.mk.pick("b", 6)]
+    rec = st.record.CircularRecord(st.Seq(data), id="rid", name="rn",
+                                   annotations={"topology": "circular"} if P["ann"] else {})
+    out = rec[a:b:step]
+    ctx.observe("out", out)
+    ctx.require(isinstance(out, st.SeqRecord) and not isinstance(out, st.record.CircularRecord), "slice-type")
+    ctx.require(seq_eq(out.seq, data[a:b:step]), "slice-letters")
+    topo = out.annotations.get("topology", "linear")
+    ctx.require(isinstance(topo, str) and topo.lower() != "circular", "slice-claims-circular")
+    ctx.require(seq_eq(rec.seq, data) and dict(rec.annotations) == ({"topology": "circular"} if P["ann"] else {}),
+                "slice-mutated-original")
+    # a linear record is not searched across its ends and can be concatenated
+    ctx.require(isinstance(out + out, st.SeqRecord), "slice-cannot-be-concatenated")
+    return True
+
+
 def ob_copy(ctx):
     """wrapping copies: no mutable container of the wrapper is shared with the original"""
     st = ctx.stack
@@ -241,5 +266,7 @@ def obligations(tier, seed):
                 continue
             obs.append(Ob("slice n=%d a=%s b=%s" % (n, "None" if a_none else "sym", "None" if b_none else "sym"),
                           ob_slice, dict(n=n, a_none=a_none, b_none=b_none, ann=bool(n % 2)), samples=8, cost=n * n))
+    for n, ann in ((7, True), (12, False)):
+        obs.append(Ob("slices with a step n=%d" % n, ob_slice_step, dict(n=n, ann=ann), samples=12, cost=40, group="step"))
     obs.append(Ob("wrapping copies", ob_copy, {}, samples=2, cost=1))
     return obs
